@@ -3,6 +3,7 @@ import BoltonsVerif.C04.Closed
 import BoltonsVerif.C04.View
 import BoltonsVerif.C04.Names
 import BoltonsVerif.C04.Win
+import BoltonsVerif.C04.Sym
 import BoltonsVerif.Generated.C04_Consts
 /-
 C04 — property theorems: a trace accepted by `SafeTrace` is crash safe at every prefix under both
@@ -602,6 +603,52 @@ example : let fs0 : FS := ⟨[⟨[7], [], 0o644⟩], ⟨some 0, none⟩, [], non
     saverTraceNt {} fs0 ⟨[([1, 2], 0)], false⟩ =
       [.openPart true true 0o644, .noop, .chmodPart 0o644, .write [1, 2] 0, .flush, .fsync, .close, .noop, .renamePartDest] ∧
     (exec fs0 (saverTraceNt {} fs0 ⟨[([1, 2], 0)], false⟩)).map FS.readDest = some (some [1, 2]) := by decide
+
+
+/-! ### round 3: a destination path that is a symbolic link -/
+
+/-- **A destination path that is a symbolic link** (to a file, or to nothing).  On the link-aware file
+    system (`C04.SFS`: the destination's entry is a file or a link to a third name; readers follow the
+    link) every accepted trace is crash safe at every prefix for what a reader of the PATH finds: after a
+    process death exactly the old state (the target's content / no file) or exactly the complete new
+    content, the same for every power-loss outcome; until the publishing event the entry is untouched
+    (a link stays a link), afterwards the path holds the complete new content and the entry is a file;
+    the target's name is never touched and every inode that existed at the start - the target's among
+    them - is unchanged. -/
+theorem symlinked_dest_crash_safe (s0 : SFS) (t : List Ev) (hwf : s0.abs.WF) (hh : s0.hist = [])
+    (hsy : DestSynced s0.abs) (hsafe : SafeTrace t = true) :
+    ∀ p q s, t = p ++ q → SFS.exec s0 p = some s →
+      (s.abs.destAfterProcCrash = s0.readDest ∨ s.abs.destAfterProcCrash = some (allWrites t)) ∧
+      (∀ r, s.abs.PowerDest r → r = s0.readDest ∨ r = some (allWrites t)) ∧
+      (publishes p = false → s.abs.destAfterProcCrash = s0.readDest ∧ s.dir.dest = s0.dir.dest) ∧
+      (publishes p = true → s.abs.destAfterProcCrash = some (allWrites t) ∧ s.dir.dest ≠ some .link) ∧
+      s.dir.tgt = s0.dir.tgt ∧
+      (∀ i, i < s0.inodes.length → s.inodes[i]? = s0.inodes[i]?) := by
+  intro p q s ht hx
+  have hxa := sexec_sim p s0 s hx
+  have hh' : s0.abs.hist = [] := by simp [SFS.abs, hh]
+  have h1 := safeTrace_crash_safe s0.abs t hwf hh' hsy hsafe p q s.abs ht hxa
+  have h2 := safeTrace_live_view s0.abs t hwf hh' hsafe p q s.abs ht hxa
+  refine ⟨h1.1, h1.2.1, ?_, ?_, sexec_tgt p s0 s hx, h2.2.1⟩
+  · intro hp
+    exact ⟨(h1.2.2.1 hp).1, (sexec_dest p s0 s hx).1 hp⟩
+  · intro hp
+    obtain ⟨i, hi⟩ := (sexec_dest p s0 s hx).2 hp
+    exact ⟨h1.2.2.2 hp, by rw [hi]; simp⟩
+
+/-- non-vacuity: the destination is a link to a file with synced content `[7]`; a full save through
+    `rename`; afterwards the path reads the new content, the entry is a file, the target still holds `[7]` -/
+example : let s0 : SFS := ⟨[⟨[7], [], 0o644⟩], ⟨some .link, none, some 0⟩, [], none, 0o022⟩
+    let t := [Ev.openPart true true 0o644, .noop, .chmodPart 0o644, .write [1, 2] 0, .flush, .fsync, .close, .renamePartDest]
+    s0.abs.WF ∧ s0.hist = [] ∧ s0.readDest = some [7] ∧ SafeTrace t = true ∧
+    (SFS.exec s0 t).map (fun s => (s.readDest, s.dir.dest, s.inodes[0]?.map Inode.cache)) =
+      some (some [1, 2], some (.file 1), some [7]) := by decide
+
+/-- a link to nothing: `link part dest` (overwrite=False) refuses, since the NAME exists -/
+example : let s0 : SFS := ⟨[], ⟨some .link, none, none⟩, [], none, 0o022⟩
+    s0.readDest = none ∧
+    SFS.exec s0 [Ev.openPart true true 0o644, .write [1] 0, .flush, .fsync, .close, .linkPartDest] = none ∧
+    (SFS.exec s0 [Ev.openPart true true 0o644, .write [1] 0, .flush, .fsync, .close, .renamePartDest]).map SFS.readDest = some (some [1]) := by decide
 
 
 end C04
